@@ -201,9 +201,9 @@ struct Gen {
             o.code = OP_SETCTR; { static const unsigned bad[] = {0xFFFFFFFFu, 0x80000000u}; unsigned pick = r.below(4); o.size = pick < 2 ? bad[pick] : bs + 1 + r.below(8); o.a = r.bytes(o.size > 24 ? 24 : o.size); if (r.chance(1, 4)) { o.flags |= F_NULLA; o.a.clear(); } }
             break;
         case 6:   // NULL input
-            o.code = OP_ENC; o.size = 1 + r.below(3 * bs); o.a = r.bytes(o.size); o.flags |= F_NULLA; break;
+            o.code = OP_ENC; o.size = r.chance(1, 4) ? 0 : 1 + r.below(3 * bs); o.a = r.bytes(o.size); o.flags |= F_NULLA; if (r.chance(1, 5)) o.flags |= F_NULLOUT; break;   // also with nothing to do (size 0) and with both pointers NULL
         case 7:   // NULL output
-            o.code = OP_ENC; o.size = 1 + r.below(3 * bs); o.a = r.bytes(o.size); o.flags |= F_NULLOUT; break;
+            o.code = OP_ENC; o.size = r.chance(1, 4) ? 0 : 1 + r.below(3 * bs); o.a = r.bytes(o.size); o.flags |= F_NULLOUT; break;
         case 8:   // parallel: not a whole number of blocks
             o.code = r.chance(1, 2) || k == PM ? OP_PENC : OP_PDEC; o.size = bs * r.below(12) + 1 + r.below(bs - 1); o.a = r.bytes(o.size); if (k == PM) o.b = r.bytes(o.size + 8); break;
         }
